@@ -321,8 +321,10 @@ for _k, _v in _LT.items():
     PROPS[_k].setdefault("level_note", "Proved about the model: the theorems listed in the evidence file (coverage.theorems)." + _LN_TAIL)
 
 # pinned sharing skeletons (calls of the copy-on-write primitives with their arguments, clones, flag assignments)
-COW_OF = {"C05": ("",), "C10": ("",), "C07": ("", "64"), "C08": ("",), "C13": ("",), "C11": ("",), "C12": ("",), "C16": ("",), "C01": ("",), "C02": ("",),
-          "C17": ("64",), "C19": ("64", "BSI32"), "C20": ("64", "BSI32")}
+# the 32-bit skeleton also exists split by the kind of function an entry stands in (Mut / Alg / Agg / Dec / Xf, each with the shared
+# bookkeeping primitives of roaringArray): a property about one kind is tied to that part; C07 and C08 (sharing itself) to the whole
+COW_OF = {"C01": ("Alg",), "C02": ("Mut",), "C05": ("Dec",), "C10": ("Dec",), "C13": ("Dec", "Mut"), "C11": ("Agg",), "C12": ("Agg",),
+          "C16": ("Xf",), "C07": ("", "64"), "C08": ("",), "C17": ("64",), "C19": ("64", "BSI32"), "C20": ("64", "BSI32")}
 for _p, _g in CMP_OF.items():
     PROPS[_p]["theorems"] = list(PROPS[_p].get("theorems", [])) + CMP(*_g) + \
         ["RModel.Facts.cowSkeleton%s_pinned" % g for g in COW_OF.get(_p, ())]
